@@ -467,6 +467,11 @@ class Escape:
         for lib in libs:
             if lib == 'builtin.next' and len(call.args) == 1:
                 out.append(('StopIteration', 'next() without default', call))
+            elif lib == 'builtin.range' and len(call.args) == 3:
+                st_ = call.args[2]
+                if not (isinstance(st_, ast.Constant) and isinstance(st_.value, int) and st_.value != 0) and not (
+                        isinstance(st_, ast.UnaryOp) and isinstance(st_.operand, ast.Constant) and st_.operand.value):
+                    out.append(('ValueError', 'range() with a step that can be 0: %s' % src(call)[:50], call))
             elif lib in ('builtin.int', 'builtin.float') and call.args:
                 a = call.args[0]
                 safe = isinstance(a, (ast.BinOp, ast.Constant)) or (
